@@ -214,6 +214,9 @@ func serve(h http.Handler, rs reqSpec) *respRec {
 	rec := httptest.NewRecorder()
 	hw := &hookWriter{ResponseRecorder: rec, cb: rs.OnFirstByte}
 	h.ServeHTTP(hw, req)
+	// the handler may have been woken by timers, contexts or peer goroutines:
+	// re-enter the schedule before the caller touches the tape again
+	simhook.Yield("net:response")
 	return &respRec{Code: rec.Code, Header: rec.Result().Header, Body: rec.Body.Bytes()}
 }
 
